@@ -18,7 +18,7 @@ META = {
             "arbitrary "
             "matchings; these with overwritten/exchanged entries; with idle "
             "teams; with teams meeting themselves; periodic team columns) "
-            "for n in {4,6,8}, rounds 1..3 (4 for the doubled family), built "
+            "for n in {2,4,6,8}, rounds 1..3 (4 for the doubled family), built "
             "through "
             "GamePlanSpace.create/validate, x constraint settings drawn "
             "from everything the Instance constructor accepts (bundled, "
@@ -413,8 +413,8 @@ def run(ctx: Ctx) -> None:
     if not ctx.warm:
         _report_enum(ctx, first_days)
     ctx.given("plan", gen_ttp.plan_cases(), check_plan,
-              quick=6000, thorough=16 * 20000)
+              quick=6000, thorough=16 * 10000)
     ctx.given("bound", gen_ttp.bound_cases(), check_bound,
-              quick=1500, thorough=16 * 4000)
+              quick=1500, thorough=16 * 3000)
     ctx.given("climb", gen_ttp.climb_cases(), check_climb,
               quick=400, thorough=16 * 1500)
